@@ -57,6 +57,9 @@ var c17lits = []struct {
 // c17keySuffix makes the keys of the mode-parity violations specific to one (position, string) of the grammar-boundary family.
 var c17keySuffix = ""
 
+// c17flags: flags given to both builds of a pair
+var c17flags []string
+
 func init() {
 	Register(&Check{
 		ID:    "C17",
@@ -73,8 +76,8 @@ func init() {
 			}
 			pair := func(c *C, id string, files []File, local bool, wantAccepted *bool) (normal, stub BuildResult, ok bool) {
 				fm := FilesMap(files)
-				n := w.Build(files)
-				s := w.Build(files, "--stub")
+				n := w.Build(files, c17flags...)
+				s := w.Build(files, append([]string{"--stub"}, c17flags...)...)
 				c.Distinct("all", id)
 				if n.Panic != "" || s.Panic != "" {
 					c.Violation("panic", "tool panicked ("+id+"):\n"+n.Panic+s.Panic, fm, nil)
@@ -164,6 +167,28 @@ func init() {
 				id := fmt.Sprintf("many-imports/%d", mi)
 				w.Case(id, func(c *C) { pair(c, id, []File{{"c.yaml", cfg.YAML()}}, false, P(true)) })
 			}
+			// the ignore flags mean the same with --stub: configurations whose only defects are missing references
+			for mi, mk := range []func(c *Cfg){
+				func(c *Cfg) { c.Services[0].Args = []any{"%gone%"} },
+				func(c *Cfg) { c.Services[0].Fields = []KV{{"F1", "@lost"}} },
+				func(c *Cfg) {
+					c.Services[0].Args = []any{"%gone%", "@lost"}
+					c.Decorators = []Decorator{{Tag: "tg", Decorator: "pk.Dec1", Args: []any{"@lost2", "%gone2%"}}}
+				},
+			} {
+				for _, flags := range [][]string{nil, {"--ignore-missing-params"}, {"--ignore-missing-services"}, {"--ignore-missing-params", "--ignore-missing-services"}} {
+					mi, mk, flags := mi, mk, flags
+					id := fmt.Sprintf("ignore-flags/%d/%v", mi, flags)
+					w.Case(id, func(c *C) {
+						cfg := &Cfg{Meta: stdMeta(), Params: []Param{{"p", 1}}, Services: []Service{{Name: "sut", Constructor: P("pk.New"), Getter: P("GetSut"), Tags: []Tag{{Name: "tg"}}}}}
+						mk(cfg)
+						c17flags = flags
+						c17keySuffix = ":ignore-flags"
+						defer func() { c17flags, c17keySuffix = nil, "" }()
+						pair(c, id, []File{{"c.yaml", cfg.YAML()}}, false, nil)
+					})
+				}
+			}
 			// configurations without any service or decorator: what a parameter copies into the generated code (the Go
 			// name of a registered function) is checked in both modes all the same
 			for _, x := range []string{"type", "func", "go", "map", "range", "FnStr", "9x", "Fn Str", ""} {
@@ -185,7 +210,7 @@ func init() {
 				id := fmt.Sprintf("counts/args=%d/fields=%d/calls=%d/tags=%d", na, nf, nc, nt)
 				w.Case(id, func(c *C) {
 					cfg := &Cfg{Meta: stdMeta(), Params: []Param{{"p", 1}}}
-					sv := Service{Name: "sut", Constructor: P("pk.New"), Getter: P("GetSut"), Type: P("*pk.Obj")}
+					sv := Service{Name: "sut", Constructor: P("pk.New"), Getter: P([]string{"GetSut", "getSut", "sut", "Sut_1"}[v%4]), Type: P("*pk.Obj"), MustGetter: P(v%3 == 0)}
 					for i := 0; i < na; i++ {
 						sv.Args = append(sv.Args, []any{"%p%", "@dep", 3}[i])
 					}
